@@ -92,6 +92,7 @@ fn one_desc_case(n: u8) {
 pub fn c06_register_one_descriptor_step() {
     one_desc_case(0);
     one_desc_case(2);
+    vcover!(true, "end of harness reached");
 }
 
 fn two_desc_case(n1: u8, n2: u8) {
@@ -122,12 +123,14 @@ fn two_desc_case(n1: u8, n2: u8) {
 #[cfg_attr(kani, kani::proof, kani::unwind(6), kani::stub(std::fmt::format, fmt_stub))]
 pub fn c06_register_two_descriptors_new_then_known() {
     two_desc_case(2, 1);
+    vcover!(true, "end of harness reached");
 }
 /// register(collector with TWO descriptors): both under known names / both under the same new name.
 #[cfg_attr(kani, kani::proof, kani::unwind(6), kani::stub(std::fmt::format, fmt_stub))]
 pub fn c06_register_two_descriptors_other_shapes() {
     two_desc_case(0, 1);
     two_desc_case(2, 2);
+    vcover!(true, "end of harness reached");
 }
 
 /// unregister of the live collector from an arbitrary state: succeeds, its ids are free again
@@ -147,6 +150,7 @@ pub fn c06_unregister_live_collector_step() {
     std::mem::forget(again);
     std::mem::forget(r);
     std::mem::forget(core);
+    vcover!(true, "end of harness reached");
 }
 /// unregister of a collector that is not registered (symbolic ids): fails, nothing changes.
 #[cfg_attr(kani, kani::proof, kani::unwind(6), kani::stub(std::fmt::format, fmt_stub))]
@@ -161,6 +165,7 @@ pub fn c06_unregister_unknown_collector_step() {
     assert!(state_unchanged(&core, &p), "C06 a failed unregister changes nothing");
     std::mem::forget(r);
     std::mem::forget(core);
+    vcover!(true, "end of harness reached");
 }
 
 /// Registering the same collector twice is AlreadyReg; gather() shows exactly live collectors.
@@ -187,6 +192,7 @@ pub fn c06_same_collector_twice_and_gather() {
     assert!(g.len() == 1 && g[0].name() == "b", "C06 samples of an unregistered collector no longer appear in gather()");
     std::mem::forget(g);
     std::mem::forget(core);
+    vcover!(true, "end of harness reached");
 }
 
 pub fn dispatch(name: &str) -> Option<fn()> {
